@@ -74,6 +74,7 @@ func recursiveSites(w *World, fns []*ssa.Function) map[*ssa.Function][]*ssa.Call
 
 func runC18(w *World, c *Check) {
 	c.Rule("C18.bounded", "every recursive call of the SPNEGO client's request function is bounded by an increasing counter or by the length of the redirect chain, each tested against a constant", 2)
+	c.Rule("C18.rechallenge", "a redirected request may be challenged again: redirects drop the Authorization header, so the 401-retry counter handed along a redirect is the constant 0", 1)
 	c.Rule("C18.measure", "the redirect chain that bounds the recursion only grows: every store to it inside the request function appends", 1)
 	c.Rule("C18.request", "a retry changes nothing of the request but its Body reader (and the Authorization header): no other field of the *http.Request is stored", 2)
 	c.Rule("C18.identity", "the authenticator of the token names the client of the credentials: crealm and cname come from Credentials.Domain()/CName() and are not overwritten", 3)
@@ -177,6 +178,27 @@ func runC18(w *World, c *Check) {
 			c.Decide(okCounter || okChain, "C18.bounded", fk, name, where,
 				"the recursive call is bounded (increasing counter with a constant limit, or the redirect chain's length against a constant)",
 				"no bound dominates this recursive call: a server that keeps answering the way that leads here makes the call recurse until the stack gives out")
+			// a site the chain bounds (a redirect) sends the request on without a token — the
+			// Authorization header is dropped — so the new target may challenge and must get its
+			// authenticated retry: the 401-retry counter starts afresh there
+			if callee == fn && okChain && !okCounter {
+				for i, p := range fn.Params {
+					if p.Type().String() != "int" || i >= len(args) {
+						continue
+					}
+					pn := fa.R.R(p)
+					isCounter := false
+					for _, other := range calls {
+						if oa := fa.CallArgs(other); other.Call.StaticCallee() == fn && i < len(oa) && (oa[i] == "(1 + "+pn+")" || oa[i] == "("+pn+" + 1)") {
+							isCounter = true
+						}
+					}
+					if isCounter {
+						c.Decide(args[i] == "0", "C18.rechallenge", fk, "redirect-resets-"+pn, where,
+							"the request sent on after a redirect starts with a fresh retry budget ("+pn+" = 0)", "passes "+args[i]+": a target that challenges after the budget was spent on the way gets no authenticated retry")
+					}
+				}
+			}
 			if okCounter {
 				c.Note("C18.bounded", fk, name+" bound", where, counterDetail)
 			} else if okChain {
